@@ -95,18 +95,28 @@ fn pool(seed: u64, n: usize) -> Vec<Cfg> {
             // the same ranges and scope on another flop, right after the original: same seats, turn and river cards mostly the same
             // (one flop card replaced: by the next rank of the same suit, or by the card 16 or 32 ids away - the flops then agree
             // on every card but one and on most bits of that one, whatever a packed or shortened key of the flop would keep)
-            let mut d = c.clone();
-            let mut f = d.flop;
-            let which = (i / 4) % 3;
-            let step = [4usize, 16, 32, 48, 1, 2, 8][(i / 12) % 7];
-            let mut k = (f[which] + step) % 52;
-            let busy: Vec<usize> = d.ranges.iter().flat_map(|r| r.iter().flat_map(|e| [e.a, e.b])).collect();
-            while f.contains(&k) || busy.contains(&k) {
-                k = (k + 4) % 52;
+            let busy: Vec<usize> = c.ranges.iter().flat_map(|r| r.iter().flat_map(|e| [e.a, e.b])).collect();
+            // a near twin (next rank, same suit: the two decks are the same card for card almost everywhere, so the evaluators
+            // meet the same turn, river and hole cards at the same time) ...
+            let mut steps = vec![4usize];
+            // ... and, for every second pair, a far twin as well (16, 32 or 48 ids away: the same low bits of the card id)
+            if i % 8 == 7 {
+                steps.push([16usize, 32, 48][(i / 8) % 3]);
             }
-            f[which] = k;
-            d.flop = f;
-            v.push(d);
+            for step in steps {
+                let mut d = c.clone();
+                let mut f = d.flop;
+                let which = if step == 4 { 0 } else { (i / 8) % 3 };
+                let mut k = if f[which] + step < 52 { f[which] + step } else if f[which] >= step { f[which] - step } else { (f[which] + 4) % 52 };
+                while f.contains(&k) || busy.contains(&k) {
+                    k = (k + 4) % 52;
+                }
+                f[which] = k;
+                d.flop = f;
+                if v.len() < n {
+                    v.push(d);
+                }
+            }
         }
         if v.len() >= n {
             break;
@@ -200,13 +210,18 @@ pub fn record_c15(args: &Args, mut out: Out) -> usize {
     }
     // twins: two live iterators over the same combos seat by seat, differing only in weights, created one right after
     // the other, called alternately (both creation orders)
-    for i in 0..npool.saturating_sub(1) {
-        let same = p[i].ranges.len() == p[i + 1].ranges.len()
-            && p[i].ranges.iter().zip(p[i + 1].ranges.iter()).all(|(a, b)| a.len() == b.len() && a.iter().zip(b.iter()).all(|(x, y)| x.a == y.a && x.b == y.b));
-        if same {
-            let sched: Vec<usize> = (0..24).map(|k| 1 + k % 2).collect();
-            inter_event(&p, &[i, i + 1], &sched, &solo_line, &mut out);
-            inter_event(&p, &[i + 1, i], &sched, &solo_line, &mut out);
+    for i in 0..npool {
+        for j in [i + 1, i + 2] {
+            if j >= npool {
+                continue;
+            }
+            let same = p[i].ranges.len() == p[j].ranges.len()
+                && p[i].ranges.iter().zip(p[j].ranges.iter()).all(|(a, b)| a.len() == b.len() && a.iter().zip(b.iter()).all(|(x, y)| x.a == y.a && x.b == y.b));
+            if same {
+                let sched: Vec<usize> = (0..24).map(|k| 1 + k % 2).collect();
+                inter_event(&p, &[i, j], &sched, &solo_line, &mut out);
+                inter_event(&p, &[j, i], &sched, &solo_line, &mut out);
+            }
         }
     }
     // churn: one iterator is advanced a little, then 80 evaluators over 80 other flops are created and advanced one step
